@@ -61,6 +61,40 @@ class Env(object):
             ctx.count(k, v)
         return rsum
 
+    def _replay_ctx(self, ctx, full, rules):
+        for rule, desc, ok in full.obligations:
+            if ok and (rule in rules or rule == "FLOOR"):
+                ctx.obligations.append((rule, desc, ok))
+        for v in full.violations:
+            if v["rule"] in rules or v["rule"] == "FLOOR":
+                ctx.obligations.append((v["rule"], v["message"], False))
+                ctx.violation(v["rule"], v["key"], v["message"], v["where"], v["detail"])
+        for k, v in full.counts.items():
+            ctx.count(k, v)
+        for smp in full.samples:
+            ctx.sample(smp, limit=16)
+        ctx.floors.extend(full.floors)
+
+    def src(self, ctx, rules):
+        """Rules on the macro's own source."""
+        from . import rules_src as rs
+        fns = {"R-WL": rs.check_rwl, "R-EXH": rs.check_rexh, "R-DET": rs.check_rdet,
+               "R-PARSE": rs.check_rparse, "R-SCOPE": rs.check_rscope, "R-CHK": rs.check_rchk,
+               "R-FLOW": rs.check_rflow, "R-ORDER": rs.check_rorder}
+        for r in rules:
+            full = Ctx("tmp")
+            fns[r](full, self.prog)
+            self._replay_ctx(ctx, full, {r})
+
+    def tables(self, ctx, rules):
+        from . import rules_tables as rt
+        fns = {"R-MAP": rt.check_rmap, "R-DATA": rt.check_rdata, "R-ORACLE": rt.check_roracle,
+               "R-GEN": rt.check_rgen}
+        for r in rules:
+            full = Ctx("tmp")
+            fns[r](full, self.prog)
+            self._replay_ctx(ctx, full, {r})
+
     def gen(self):
         if self._gen is None:
             self._gen = analysis.repo_gen_results(self.fdir)
